@@ -97,7 +97,7 @@ def body_build(case, ctx):
     else:
         want_s = dl.resolve_size(method, req)
         want_d = dl.degree_of_size(method, want_s)
-        g = AngularGrid(size=req, method=method, cache=False)
+        g = AngularGrid(size=(np.int64(req) if req % 2 else req), method=method, cache=False)
     want_s = dl.size_of_degree(method, want_d)
     ctx.cls(f"{method}/{kind}")
     ctx.nt((req != want_d) if kind == "degree" else (req != want_s))
@@ -118,6 +118,9 @@ def cases_build(tier, seed):
     rng_pick = (seed * 2654435761) % (2**32)
     for method in _methods():
         tab = dl.table(method)
+        for kind in ("degree", "size"):  # the smallest requests go through the constructor too (0 is falsy in Python)
+            for req in (0, 1):
+                out.append({"method": method, "kind": kind, "request": req})
         for i, (d, s) in enumerate(tab):
             cheap = s <= 6000
             sampled = ((i * 7919 + rng_pick) % 5) == 0
